@@ -309,6 +309,13 @@ DEF_VIOLATIONS = [
     ("computed-field-of-other-record-uses-switch-variable", lambda: [{"kind": "record", "name": "ZzInner", "tparams": [], "fields": [("x", P("int32"))], "computed": [("c", "w + x")]},
                                                                       {"kind": "record", "name": "ZzRec", "tparams": [], "fields": [("inner", ("named", "ZzInner", [])), ("o", ("opt", P("int32")))],
                                                                        "computed": [("a", "\n      !switch o:\n        int w: inner.c\n        _: 0")]}]),
+    # names that must be distinct across kinds of members, and after the case conversion the generated code applies
+    ("computed-field-named-like-a-field", lambda: [{"kind": "record", "name": "ZzRec", "tparams": [], "fields": [("a", P("int32")), ("b", P("int32"))], "computed": [("a", "b + 1")]}]),
+    ("computed-field-like-a-field-after-snake-case", lambda: [{"kind": "record", "name": "ZzRec", "tparams": [], "fields": [("fooBar", P("int32"))], "computed": [("fooBAR", "1")]}]),
+    ("computed-fields-collide-after-snake-case", lambda: [{"kind": "record", "name": "ZzRec", "tparams": [], "fields": [("x", P("int32"))], "computed": [("fooBar", "1"), ("fooBAR", "2")]}]),
+    ("fields-collide-after-snake-case", lambda: [{"kind": "record", "name": "ZzRec", "tparams": [], "fields": [("fooBar", P("int32")), ("fooBAR", P("string"))]}]),
+    ("steps-collide-after-snake-case", lambda: [{"kind": "protocol", "name": "ZzProt", "steps": [("fooBar", P("int32"), False), ("fooBAR", P("string"), True)]}]),
+    ("enum-symbols-collide-after-case-conversion", lambda: [{"kind": "enum", "name": "ZzE", "flags": False, "base": None, "auto": False, "values": [("fooBar", 0), ("fooBAR", 1)]}]),
     ("computed-field-bad-index", lambda: [{"kind": "record", "name": "ZzRec", "tparams": [], "fields": [("v", ("vec", P("int32"), 3))], "computed": [("c", "v[7]")]}]),
 ] + [("cycle-" + k, (lambda k=k: k)) for k in CYCLES]
 
